@@ -5,4 +5,5 @@ import GmVerif.Thm.C04
 #print axioms GmVerif.Thm.C04.verify_total
 #print axioms GmVerif.Thm.C04.verify_bad_length
 #print axioms GmVerif.Thm.C04.verify_out_of_range
+#print axioms GmVerif.Thm.C04.verify_sum_infinity
 #print axioms GmVerif.Thm.C04.verify_unfold
